@@ -186,6 +186,13 @@ func conversionTupleToSet(tupleType cty.Type, setEty cty.Type, unsafe bool) conv
 		// a suitable single type that all elements can convert to, if
 		// possible.
 		setEty, _ = unify(tupleEtys, unsafe)
+		if setEty == cty.NilType && unsafe {
+			// Unsafe unification optimistically resolves nested dynamic
+			// types, which can make it fail where safe unification
+			// succeeds; everything offered as safe must be offered as
+			// unsafe too.
+			setEty, _ = unify(tupleEtys, false)
+		}
 		if setEty == cty.NilType {
 			return nil
 		}
@@ -274,6 +281,13 @@ func conversionTupleToList(tupleType cty.Type, listEty cty.Type, unsafe bool) co
 		// a suitable single type that all elements can convert to, if
 		// possible.
 		listEty, _ = unify(tupleEtys, unsafe)
+		if listEty == cty.NilType && unsafe {
+			// Unsafe unification optimistically resolves nested dynamic
+			// types, which can make it fail where safe unification
+			// succeeds; everything offered as safe must be offered as
+			// unsafe too.
+			listEty, _ = unify(tupleEtys, false)
+		}
 		if listEty == cty.NilType {
 			return nil
 		}
@@ -370,6 +384,13 @@ func conversionObjectToMap(objectType cty.Type, mapEty cty.Type, unsafe bool) co
 			objectAtysList = append(objectAtysList, aty)
 		}
 		mapEty, _ = unify(objectAtysList, unsafe)
+		if mapEty == cty.NilType && unsafe {
+			// Unsafe unification optimistically resolves nested dynamic
+			// types, which can make it fail where safe unification
+			// succeeds; everything offered as safe must be offered as
+			// unsafe too.
+			mapEty, _ = unify(objectAtysList, false)
+		}
 		if mapEty == cty.NilType {
 			return nil
 		}
